@@ -20,6 +20,8 @@ import gens_text as G  # noqa: F401
 from wire import Ok, Err, oracle_batch  # noqa: F401
 from pycaption import DFXPReader, SAMIReader, WebVTTReader, SRTReader, MicroDVDReader
 
+TABLES = ("Generated.v", "GenText.v")     # the SAMI entity table is generated from the working tree
+
 FMT = {"DFXP": 0, "SAMI": 1, "WebVTT": 2, "SRT": 3, "MicroDVD": 4}
 READERS = {"DFXP": DFXPReader, "SAMI": SAMIReader, "WebVTT": WebVTTReader, "SRT": SRTReader,
            "MicroDVD": MicroDVDReader}
@@ -62,6 +64,8 @@ def rand_word(rng, fmt, adversarial):
         w = "".join(rng.choice(PLAIN) for _ in range(rng.randint(1, 6)))
     if fmt == "MicroDVD":
         w = w.replace("|", "/")
+    if not w.strip():
+        return rand_word(rng, fmt, adversarial)      # a word has a visible character
     return w
 
 
@@ -287,9 +291,12 @@ def run_batch(ctx, res, fmt, cues, stream):
     code = FMT[fmt]
     wires = [wire_items(c) for c in cues]
     contents = oracle_batch([(400, [code, w]) for w in wires])
+    shown = oracle_batch([(401, w) for w in wires])
     keep = []
-    for c, w, s in zip(cues, wires, contents):
+    for c, w, s, d in zip(cues, wires, contents, shown):
         why = in_domain(fmt, s)
+        if not why and not any(l.strip() for l in d):
+            why = "no_visible_character"
         if why:
             res["distribution"][why] = res["distribution"].get(why, 0) + 1
         else:
@@ -457,9 +464,9 @@ def run(ctx):
         toks = tokens_for(fmt)
         seqs = []
         for L in range(1, maxlen + 1):
-            if fmt == "WebVTT" and L == maxlen and not ctx.thorough:
-                # the WebVTT alphabet is large: the longest length is sampled in the quick tier
-                for _ in range(6000):
+            if len(toks) ** L > 200000:
+                # alphabet too large for this length: sampled (WebVTT at length >= 3/4, DFXP/SAMI at 4 in thorough)
+                for _ in range(ctx.n(6000, 120000)):
                     seqs.append(sum((rng.choice(toks) for _ in range(L)), []))
                 continue
             for combo in itertools.product(toks, repeat=L):
